@@ -54,7 +54,7 @@ def main(argv=None):
     seed = int(os.environ.get('VERIF_SEED', '0') or 0)
     if a.replay:
         return replay(a.prop, a.replay, a.repo)
-    only = a.only.split(',') if a.only else None
+    only = [o for o in a.only.split(',') if o] if a.only else None
     return driver.check_property(a.prop, PROPS[a.prop], a.tier, a.repo, seed, only=only,
                                  nproc=a.nproc)
 
